@@ -61,12 +61,16 @@ func iterateModuleImportsRec [C10, C16]
   modifies *
   ensures mapHas(visited, module)
   ensures forall m *Module :: old(mapHas(visited, m)) ==> mapHas(visited, m)
+  // outer loop (over module.Imports): everything imported by the statements before the current one is visited
   loop 0 invariant mapHas(visited, module) && (forall m *Module :: old(mapHas(visited, m)) ==> mapHas(visited, m))
-  loop 0 invariant forall i, j int :: 0 <= i && i <= rangeindex && i < len(module.Imports) && 0 <= j && j < len(module.Imports[i].Modules)
+  loop 0 invariant forall i, j int :: 0 <= i && i <= rangeindex0 && i < len(module.Imports) && 0 <= j && j < len(module.Imports[i].Modules)
                      ==> mapHas(visited, module.Imports[i].Modules[j])
+  // inner loop (over imprt.Modules): additionally the modules of the current statement up to the current one
   loop 1 invariant mapHas(visited, module) && (forall m *Module :: old(mapHas(visited, m)) ==> mapHas(visited, m))
-  loop 1 invariant forall i, j int :: 0 <= i && i < at(LI, rangeindex) && i < len(module.Imports) && 0 <= j && j < len(module.Imports[i].Modules)
+  loop 1 invariant 0 <= rangeindex0 && rangeindex0 < len(module.Imports) && imprt == module.Imports[rangeindex0]
+  loop 1 invariant forall i, j int :: 0 <= i && i < rangeindex0 && 0 <= j && j < len(module.Imports[i].Modules)
                      ==> mapHas(visited, module.Imports[i].Modules[j])
+  loop 1 invariant forall j int :: 0 <= j && j <= rangeindex1 && j < len(imprt.Modules) ==> mapHas(visited, imprt.Modules[j])
 
 func IterateModuleImports [C10, C16]
   callsite iterateModuleImportsRec requires arg0 == module && arg0 != nil && arg2 != nil
